@@ -83,6 +83,9 @@ def classify_occurrences(ctx, stmt, scope_src=SCOPE_PARAM, writer_local=None):
             res[id(o)] = ('filtered', f'lexicon_rowid IN <{scope_src}>')
     # row-keyed statements: single table, WHERE is exactly one `rowid = ?`
     real = [o for o in occs if o.kind == 'table' and o.table in schema.tables]
+    def real_of(scope):
+        return [x for x in real if x.scope == scope]
+
     # iterative: FK-parent of an accepted row / child of an accepted owner
     changed = True
     while changed:
@@ -98,14 +101,15 @@ def classify_occurrences(ctx, stmt, scope_src=SCOPE_PARAM, writer_local=None):
                     qb, cb = split(b)
                     # ---- parent: o.rowid = other.fkcol  where other accepted and fkcol references o.table
                     oa = find_occ(sc, qa) if qa else None
-                    if oa is o and ca == 'rowid' and qb is not None:
+                    if oa is o and ca == 'rowid' and qb is not None and _only_reports_id(stmt, schema, o, real_of(o.scope)):
                         ob = find_occ(sc, qb)
                         if ob is not None and ob is not o and id(ob) in res and res[id(ob)][0] not in ('UNFILTERED',) \
                                 and ob.kind == 'table' \
                                 and any(fk.table == ob.table and fk.column == cb and fk.ref_table == o.table
                                         for fk in schema.fks):
                             res[id(o)] = ('exempt-parent',
-                                          f'at most one row, reached through FK {ob.alias}.{cb} of an accepted row')
+                                          f'at most one row, reached through FK {ob.alias}.{cb} of an accepted row, '
+                                          f'and joined only to report its id')
                             changed = True
                     # ---- child without own lexicon column: o.fk = owner.rowid with owner accepted(filtered)
                     if oa is o and qb is not None and cb == 'rowid' and not schema.has_col(o.table, 'lexicon_rowid'):
@@ -167,6 +171,40 @@ def classify_occurrences(ctx, stmt, scope_src=SCOPE_PARAM, writer_local=None):
         st = res.get(id(o), ('UNFILTERED', 'no lexicon filter binds this occurrence'))
         out.append((o, st[0], st[1]))
     return out
+
+
+def _only_reports_id(stmt, schema, occ, real_in_scope):
+    """the occurrence contributes nothing but its `id` to the select list of its (sub)query: it is joined to name
+    the parent of a result row, it is not itself the result row."""
+    items = stmt.select_list() if occ.scope == 0 else stmt.subselect_list(occ.scope)
+    if items is None:
+        return False
+    for item in items:
+        toks = S._TOK.findall(item)
+        i = 0
+        while i < len(toks):
+            t = toks[i]
+            if i + 2 < len(toks) and toks[i + 1] == '.':
+                if t == occ.alias and toks[i + 2] != 'id':
+                    return False
+                i += 3
+                continue
+            if toks[i] == '(':
+                # nested sub-select inside the select list: skip it
+                depth = 1
+                i += 1
+                while i < len(toks) and depth:
+                    depth += toks[i] == '('
+                    depth -= toks[i] == ')'
+                    i += 1
+                continue
+            if re.match(r'[A-Za-z_]', t) and t.upper() not in S.KEYWORDS and schema.has_col(occ.table, t) and t != 'id':
+                # unqualified column that this table could supply
+                others = [x for x in real_in_scope if x is not occ and schema.has_col(x.table, t)]
+                if not others:
+                    return False
+            i += 1
+    return True
 
 
 # ---------------------------------------------------------------------------
